@@ -538,10 +538,10 @@ func guarded(f func() string) (out string) {
 	select {
 	case out = <-done:
 		return out
-	case <-time.After(120 * time.Second):
-		// a call that does not return within two minutes of real time is a harness problem (starved machine or a
-		// deadlock the scripts cannot attribute): exit 2, never a verdict
-		fmt.Fprintln(os.Stderr, "c05: watchdog: a call on the cache did not return within 120 s — harness error")
+	case <-time.After(60 * time.Second):
+		// a single call on an in-process cache / fake that does not return within a minute of real time: the worker
+		// process gives up; the parent reports the script as `C05:api:hang` (in-process mode: harness error)
+		fmt.Fprintln(os.Stderr, "c05: watchdog: a call on the cache did not return within 60 s")
 		os.Exit(2)
 		return "hang"
 	}
@@ -676,6 +676,7 @@ type workerProc struct {
 }
 
 var worker *workerProc
+var workerDeaths int
 
 func startWorker() *workerProc {
 	cmd := exec.Command(os.Args[0], "worker")
@@ -690,9 +691,11 @@ func startWorker() *workerProc {
 	return &workerProc{cmd: cmd, in: bufio.NewWriter(stdin), out: bufio.NewReaderSize(stdout, 1<<20), stderr: errb}
 }
 
-func hasRace(c corr.Case) bool {
+func hasRace(c corr.Case) bool { return hasOp(c, "race") || hasOp(c, "stress") }
+
+func hasOp(c corr.Case, name string) bool {
 	for _, l := range c.Lines {
-		if strings.HasPrefix(l, "race ") {
+		if l == name || strings.HasPrefix(l, name+" ") {
 			return true
 		}
 	}
@@ -701,8 +704,19 @@ func hasRace(c corr.Case) bool {
 
 func runCase(c corr.Case) corr.Result {
 	smokeOnce.Do(func() { smokeRes = startSmoke() })
-	if !hasRace(c) || os.Getenv("C05_INPROCESS") != "" {
+	// EVERY script runs in the worker process: a call that aborts the runtime (a forgotten Lock(): "fatal error: sync:
+	// unlock of unlocked mutex") or never returns (a forgotten Unlock()) on a valid input must become a finding with
+	// the script as replay, and must not take the harness down. Only `smoke` (no cache call in this process) is local.
+	if (len(c.Lines) == 2 && c.Lines[1] == "smoke") || os.Getenv("C05_INPROCESS") != "" {
 		return runCaseLocal(c, nil)
+	}
+	if workerDeaths >= 25 {
+		// the tree kills the worker on ordinary scripts (already reported with replays): do not spend the run on restarts
+		var res corr.Result
+		for range c.Lines {
+			res.Outs = append(res.Outs, "not-run")
+		}
+		return res
 	}
 	if worker == nil {
 		worker = startWorker()
@@ -733,6 +747,7 @@ func runCase(c corr.Case) corr.Result {
 	}
 	_ = w.cmd.Wait()
 	worker = nil
+	workerDeaths++
 	first := ""
 	for _, l := range strings.Split(w.stderr.String(), "\n") {
 		if strings.HasPrefix(l, "fatal error:") || strings.HasPrefix(l, "panic:") || strings.HasPrefix(l, "unexpected fault") || strings.HasPrefix(l, "[signal") {
@@ -740,7 +755,8 @@ func runCase(c corr.Case) corr.Result {
 			break
 		}
 	}
-	if first == "" || strings.Contains(w.stderr.String(), "c05: watchdog") {
+	hung := strings.Contains(w.stderr.String(), "c05: watchdog")
+	if first == "" && !hung {
 		fmt.Fprintln(os.Stderr, "c05: worker process died without a Go runtime abort:", w.stderr.String())
 		os.Exit(2)
 	}
@@ -756,7 +772,18 @@ func runCase(c corr.Case) corr.Result {
 	if crashed < len(c.Lines) {
 		at = c.Lines[crashed]
 	}
-	res.Hits = append(res.Hits, corr.Hit{Key: "C05:concurrency:crash", What: fmt.Sprintf("the process was aborted by the Go runtime while executing `%s` (concurrent callers on one cache): %s", at, first)})
+	switch {
+	case hung:
+		workerDeaths = 25 // every further script would wait for the watchdog again
+		if crashed < len(res.Outs) {
+			res.Outs[crashed] = "hang"
+		}
+		res.Hits = append(res.Hits, corr.Hit{Key: "C05:api:hang", What: fmt.Sprintf("the call `%s` did not return within 60 s (a lock that is never released?)", at)})
+	case hasRace(c):
+		res.Hits = append(res.Hits, corr.Hit{Key: "C05:concurrency:crash", What: fmt.Sprintf("the process was aborted by the Go runtime while executing `%s` (concurrent callers on one cache): %s", at, first)})
+	default:
+		res.Hits = append(res.Hits, corr.Hit{Key: "C05:api:crash", What: fmt.Sprintf("the process was aborted by the Go runtime while executing `%s` (one caller, valid input): %s", at, first)})
+	}
 	return res
 }
 
@@ -1063,6 +1090,18 @@ func runSmoke() (string, *corr.Hit) {
 		return "smoke-ok", nil
 	case strings.HasPrefix(line, "smoke-bad "):
 		return "smoke-bad", &corr.Hit{Key: "C05:mem:production-clock", What: "without the clock hook (real time, the package's own `now`): " + strings.TrimPrefix(line, "smoke-bad ")}
+	}
+	for _, l := range strings.Split(line, "\n") {
+		l = strings.TrimSpace(l)
+		if i := strings.Index(l, "panic:"); i >= 0 {
+			l = l[i:]
+		}
+		if i := strings.Index(l, "fatal error:"); i >= 0 {
+			l = l[i:]
+		}
+		if strings.HasPrefix(l, "fatal error:") || strings.HasPrefix(l, "panic:") {
+			return "smoke-crash", &corr.Hit{Key: "C05:api:crash", What: "Set ttl 1 / Set ttl 600 / Get on a fresh in-memory cache (hook-free child) aborted the process: " + l}
+		}
 	}
 	fmt.Fprintln(os.Stderr, "c05: smoke child failed:", line)
 	os.Exit(2)
